@@ -231,8 +231,19 @@ func (h *vHist) step(op int, maxSnaps int) bool {
 			done := false
 			before := n.m.clone()
 			var seen []vSeen
-			err := n.c.VisitItemsAscendEx(nil, true, func(i *Item, d uint64) bool {
-				seen = append(seen, vSeen{i.Key, i.Val, i.Priority, d})
+			descend := vChoose("pinned-descend", 0, 1) == 1
+			visitFn := n.c.VisitItemsAscendEx
+			target := []byte(nil)
+			if descend {
+				visitFn = n.c.VisitItemsDescendEx
+				target = []byte{0xff, 0xff}
+			}
+			err := visitFn(target, true, func(i *Item, d uint64) bool {
+				if descend {
+					seen = append([]vSeen{{i.Key, i.Val, i.Priority, d}}, seen...)
+				} else {
+					seen = append(seen, vSeen{i.Key, i.Val, i.Priority, d})
+				}
 				if !done {
 					done = true
 					switch nested {
@@ -382,12 +393,16 @@ func (h *vHist) step(op int, maxSnaps int) bool {
 		vAssert("setcoll-existing-nonnil", nc != nil)
 		o.colls[ci].c = nc
 	case hSetCollNew:
-		if !o.open || o.find("b") >= 0 {
+		nn := "b"
+		if vParam("emptyname") == 1 {
+			nn = ""
+		}
+		if !o.open || o.find(nn) >= 0 {
 			return false
 		}
 		vTrace("SetCollection(new)")
-		nc := o.s.SetCollection("b", nil)
-		o.insert(vNamed{"b", &vModel{cmp: bytes.Compare}, nc})
+		nc := o.s.SetCollection(nn, nil)
+		o.insert(vNamed{nn, &vModel{cmp: bytes.Compare}, nc})
 	case hCloseStore:
 		if !o.open {
 			return false
